@@ -229,6 +229,42 @@ def transform(toks, it, hoist_names=None, hoist_suffix=None, is_member=False, re
                 res.dropped.append(('use', ''.join(x.text for x in toks[j:k + 1])))
                 j = k + 1
                 continue
+            if t.kind == 'ident' and t.text in ('debug_assert_eq', 'debug_assert') and toks[j + 1].text == '!':
+                # a debug assertion panics in debug builds: rewritten to a Verus obligation (C13) --
+                # `debug_assert_eq!(a, b);` -> `let dbg_l__ = a; let dbg_r__ = b; assert(dbg_l__ == dbg_r__);`
+                k = match_close(toks, j + 2)
+                args = [[]]
+                depth = 0
+                for q in range(j + 3, k):
+                    x = toks[q]
+                    if x.kind == 'punct' and x.text in ('(', '[', '{'):
+                        depth += 1
+                    elif x.kind == 'punct' and x.text in (')', ']', '}'):
+                        depth -= 1
+                    if depth == 0 and x.kind == 'punct' and x.text == ',':
+                        args.append([])
+                    else:
+                        args[-1].append(x)
+                ws = strip_comments(t.ws)
+                def emit_let(name, a, first):
+                    out.append(mk('ident', 'let', ws if first else ' '))
+                    out.append(mk('ident', name))
+                    out.append(mk('punct', '='))
+                    for x in a:
+                        emit(x)
+                    out.append(mk('punct', ';', ''))
+                if t.text == 'debug_assert_eq' and len(args) >= 2:
+                    emit_let('dbg_l__', args[0], True)
+                    emit_let('dbg_r__', args[1], False)
+                    for tx in ('assert', '(', 'dbg_l__', '==', 'dbg_r__', ')'):
+                        out.append(mk('punct' if tx in '()==' else 'ident', tx, ' ' if tx == 'assert' else ''))
+                else:
+                    emit_let('dbg_l__', args[0], True)
+                    for tx in ('assert', '(', 'dbg_l__', ')'):
+                        out.append(mk('punct' if tx in '()' else 'ident', tx, ' ' if tx == 'assert' else ''))
+                res.dropped.append(('rewrite', '%s!(..) -> let-bound operands + Verus assert (proof obligation)' % t.text))
+                j = k + 1
+                continue
             if t.kind == 'ident' and t.text in RENAMES and j > 0 and toks[j - 1].text in ('.', '::'):
                 res.renamed[t.text] = res.renamed.get(t.text, 0) + 1
                 emit(t, RENAMES[t.text])
